@@ -171,7 +171,7 @@ func c14Run(c *Ctx) {
 		if ct.Iface == nil {
 			continue
 		}
-		for _, m := range ifaceMethods(ct.Iface) {
+		for _, m := range pinnedMethods(ct) {
 			fam := c14Family(m.Name())
 			if fam == "" {
 				continue
